@@ -5,7 +5,9 @@ CONSTANTS
   DeepLen = 3
   DeepMinters <- Names
   DeepFams <- FamsDeepT
+  SibFams <- FamsSibT
   ProcessWideCache = FALSE
+  AudienceIsUrlRoot = FALSE
 INIT Init
 NEXT Next
 INVARIANTS
@@ -15,4 +17,5 @@ INVARIANTS
   Decided
   CacheUnused
   Emit
+  EmitDepls
 CHECK_DEADLOCK FALSE
